@@ -47,7 +47,11 @@ Definition enqueue (q : list (Z * list string)) (m : Z * list string) : list (Z 
 Definition deliver (c : cl) (from : nat) (m : Z * list string) : cl :=
   fold_left (fun c j =>
     if Nat.eqb j from then c
-    else if Nat.eqb j (cl_leader c) then fst (feed c (ReqCommand (fst m) (snd m)))
+    else if Nat.eqb j (cl_leader c) then
+      match notify_mutate (node_of c j) (fst m) (snd m) with
+      | Some e => fst (feed c e)
+      | None => c
+      end
     else c <| cl_out := <[j := enqueue (nth j (cl_out c) []) m]> (cl_out c) |>)
     (seq 0 (length (cl_nodes c))) c.
 
